@@ -35,6 +35,8 @@ func main() {
 		fmt.Fprintln(os.Stderr, "unknown property", os.Args[1])
 		os.Exit(2)
 	}
+	// a runaway recursion should die quickly (the default limit of 1 GB takes seconds to exhaust)
+	debug.SetMaxStack(128 << 20)
 	in := bufio.NewReaderSize(os.Stdin, 1<<20)
 	w := bufio.NewWriterSize(os.Stdout, 1<<20)
 	defer w.Flush()
